@@ -152,6 +152,64 @@ type argWalker struct {
 	known   []string
 }
 
+// unrepresentableOnlyInCustomScalars: every number literal of the arguments (or of the defaults of
+// omitted arguments) that strconv cannot convert sits in a custom-scalar position, the only place
+// where validation lets one through (recorded finding argmap-number-out-of-range-panic). In a
+// position typed Int, Float or ID validation must have rejected it, so a panic there is not excused.
+func unrepresentableOnlyInCustomScalars(defs ast.ArgumentDefinitionList, args ast.ArgumentList) bool {
+	bad := func(v *ast.Value) bool {
+		switch v.Kind {
+		case ast.IntValue:
+			_, err := strconv.ParseInt(v.Raw, 10, 64)
+			return err != nil
+		case ast.FloatValue:
+			_, err := strconv.ParseFloat(v.Raw, 64)
+			return err != nil
+		}
+		return false
+	}
+	ok := true
+	var walk func(v *ast.Value, inCustom bool)
+	walk = func(v *ast.Value, inCustom bool) {
+		if v == nil {
+			return
+		}
+		if v.Definition != nil {
+			inCustom = isCustomScalarDef(v.Definition)
+		}
+		if bad(v) && !inCustom {
+			ok = false
+		}
+		for _, c := range v.Children {
+			walk(c.Value, inCustom)
+		}
+		if v.Kind == ast.Variable && v.VariableDefinition != nil && v.VariableDefinition.DefaultValue != nil {
+			walk(v.VariableDefinition.DefaultValue, isCustomScalarDef(v.VariableDefinition.Definition))
+		}
+	}
+	for _, d := range defs {
+		if a := args.ForName(d.Name); a != nil {
+			walk(a.Value, false)
+		} else if d.DefaultValue != nil {
+			// defaults of the schema are not annotated: judged by the argument's declared type
+			var w2 func(v *ast.Value)
+			w2 = func(v *ast.Value) {
+				if bad(v) {
+					switch d.Type.Name() {
+					case "Int", "Float", "ID", "String", "Boolean":
+						ok = false
+					}
+				}
+				for _, c := range v.Children {
+					w2(c.Value)
+				}
+			}
+			w2(d.DefaultValue)
+		}
+	}
+	return ok
+}
+
 func literalHasUnrepresentable(v interface{}) bool {
 	switch x := v.(type) {
 	case string:
@@ -180,7 +238,7 @@ func (w *argWalker) check(where string, defs ast.ArgumentDefinitionList, args as
 	want := expectedArgs(defs, args, w.vars)
 	var got map[string]interface{}
 	if p := kit.Safely(func() { got = call() }); p != nil {
-		if kit.KFOpen("C15", "argmap-number-out-of-range-panic") && literalHasUnrepresentable(want) && strings.Contains(p.Value, "out of range") {
+		if kit.KFOpen("C15", "argmap-number-out-of-range-panic") && literalHasUnrepresentable(want) && strings.Contains(p.Value, "out of range") && unrepresentableOnlyInCustomScalars(defs, args) {
 			w.known = append(w.known, "argmap-number-out-of-range-panic")
 			return ""
 		}
